@@ -24,6 +24,12 @@ THEOREMS = [
     "c08_pinned_code_violates",
 ]
 RULE = (
+    "hardening sweep: falsy values (ids 0 / 0.0 / '', tool name '' and uri '' registered, falsy tool/resource/custom results, falsy "
+    "exception args, falsy session-id results and arguments), type twins (7 / '7' / 7.0 ids, tools named '0' 'None' 'True' '7' vs the JSON "
+    "values), every string/int constant harvested from the server modules as method / tool name / uri / id, format-hostile text in "
+    "methods, names, uris, ids, arguments, results and exception texts, deep / large results, suspending handlers, a server whose built-in "
+    "methods are re-registered through register_method, list messages, unusual envelopes, and a second suite of 2-4 message "
+    "sequences on one fresh server (same envelope object reused, request after a failure, second initialize, id twins, live session id); "
     "handler behaviours: returns / returns nonsense / raises split by exception shape (empty text, no args, bare assert, "
     "TimeoutError, newline-only, multi-line, non-ASCII+control, lone surrogate, 100k chars, non-string args, __str__ "
     "returning '', chained, ExceptionGroup, pydantic ValidationError, UnicodeDecodeError, OSError, StopIteration, unprintable) "
@@ -62,7 +68,7 @@ def raise_target(case):
     params = msg.get("params")
     if not isinstance(me, str):
         return None
-    if me in H.CUSTOM:
+    if me in H.custom_table(case.get("server")):
         sh = H.raise_shape("custom", me)
         return ("custom", sh) if sh else None
     if me == "tools/call" and isinstance(params, dict) and isinstance(params.get("name"), str):
@@ -83,23 +89,35 @@ def excluded(case):
 
 # ---- generators ------------------------------------------------------------------------------
 
-IDS = ["<absent>", 0, 1, -1, -(2 ** 63), 2 ** 63, 2 ** 53 + 1, "", "0", "abc", "Ünï-ид", " ", "null", "x" * 300]
+IDS = ["<absent>", 0, 1, -1, 7, "7", 7.0, 0.0, -(2 ** 63), 2 ** 63, 2 ** 53 + 1, "", "0", "abc", "Ünï-ид", " ", "null", "x" * 300,
+       "%s", "{0}", "a\nb", "\u2028", "None", "False", -32601, "ping"]
+IDS_Q = ["<absent>", 0, "", 7, "7", 7.0, -1, "abc", "%s"]
 IDS_SHORT = ["<absent>", 0, "", "r-1", -7]
 ODD_METHODS = ["", " ", "PING", "ping ", "tools/call/", "tools", "rpc.discover", "notifications/", "notifications/unknown",
-               "notifications/custom", "null", "0", "métho∂/ünï", "a" * 200, "initialize\n", "custom/nosuch", "$/cancelRequest"]
+               "notifications/custom", "null", "0", "métho∂/ünï", "a" * 200, "initialize\n", "custom/nosuch", "$/cancelRequest",
+               "%s", "%d %s", "{}", "{0}", "{method}", "%(name)s", "\\", "\"", "'", "a\nb", "a\r\nb", "\u2028", "\u2029", "\x85",
+               "None", "False", "7", "z" * 100000]
 GENERIC_PARAMS = ["<absent>", None, {}, {"x": 1, "_meta": {"progressToken": 0}}, {"requestId": 7, "reason": "user"},
-                  {"progressToken": "tok", "progress": 1, "requestId": None}]
+                  {"progressToken": "tok", "progress": 1, "requestId": None},
+                  {"requestId": 0, "progressToken": "", "name": "", "uri": "", "arguments": {}, "clientInfo": {}, "protocolVersion": ""}]
+CORE_METHODS = H.BUILTIN + ["notifications/cancelled", "notifications/progress", "custom/answers", "custom/raises", "nosuch"]
 
-TOOL_NAMES = sorted(H.TOOLS) + ["nosuch", "ECHO", "echo ", 5, 0, 1.5, True, False, None, ["echo"], {"name": "echo"}, [], "<absent>"]
 ARGUMENTS = ["<absent>", {}, {"text": "x"}, {"text": None}, {"text": [1, {"a": None}]}, {"other": 1}, {"text": "x", "extra": 1},
-             None, [1], "s", 5]
-URIS = sorted(H.RESOURCES) + ["file:///nosuch", "", "FILE:///OK", 5, True, None, ["file:///ok"], {"uri": "file:///ok"}, 1.5, "<absent>"]
+             None, [1], "s", 5, {"text": ""}, {"text": 0}, {"text": False}, {"text": []}, {"text": {}}, {"text": H.HOSTILE_TEXT},
+             [], "", 0, False, {"": 1}, {"handler": 1}, {"name": "echo"}]
+ARGUMENTS_Q = ["<absent>", {}, {"text": ""}, {"text": 0}, {"other": 1}, None, [], "", 0, False, {"text": H.HOSTILE_TEXT}]
+NAME_EXTRAS = ["nosuch", "ECHO", "echo ", 5, 0, 7, 7.0, 1.5, True, False, None, ["echo"], {"name": "echo"}, [], {}, "<absent>"]
+URI_EXTRAS = ["file:///nosuch", "FILE:///OK", 5, 0, True, False, None, ["file:///ok"], {"uri": "file:///ok"}, [], {}, 1.5, "<absent>"]
 INIT_PARAMS = ["<absent>", None, {}, {"protocolVersion": "2025-06-18", "clientInfo": {"name": "c", "version": "1"}, "capabilities": {}},
                {"protocolVersion": "2025-06-18"}, {"clientInfo": None}, {"clientInfo": 5, "capabilities": []},
-               {"clientInfo": {"name": []}}, {"capabilities": None, "x": [1]}, {"_meta": {}}]
+               {"clientInfo": {"name": []}}, {"capabilities": None, "x": [1]}, {"_meta": {}},
+               {"protocolVersion": ""}, {"protocolVersion": 0}, {"protocolVersion": False}, {"protocolVersion": []},
+               {"protocolVersion": "1999-01-01", "clientInfo": ""}, {"protocolVersion": "%s", "clientInfo": 0},
+               {"protocolVersion": None, "clientInfo": [], "capabilities": 0}]
+SIDS = [None, "", "no-such-session", "%s", "0"]
 
 
-def mk(method, id_, params, env="legacy"):
+def mk(method, id_, params, env="legacy", **kw):
     msg = {"jsonrpc": "2.0"}
     if id_ != "<absent>":
         msg["id"] = id_
@@ -107,43 +125,136 @@ def mk(method, id_, params, env="legacy"):
         msg["method"] = method
     if params != "<absent>":
         msg["params"] = params
-    return {"msg": msg, "env": env}
+    return dict({"msg": msg, "env": env}, **kw)
 
 
-def all_methods():
+_HARVEST = None
+
+
+def harvest():
+    """every short string / integer constant written in the anchored server modules (docstrings excluded), with simple
+    spelling variants: fed into the open string / integer positions (method, tool name, uri, id)"""
+    global _HARVEST
+    if _HARVEST is not None:
+        return _HARVEST
+    import ast
+    from ..core import REPO
+
+    strs, ints = [], []
+    for rel in ("server/protocol_handler.py", "server/server.py", "server/session/memory.py", "server/session/base.py"):
+        try:
+            tree = ast.parse((REPO / "src" / "chuk_mcp" / rel).read_text())
+        except Exception:
+            continue
+        doc = set()
+        for node in ast.walk(tree):
+            if isinstance(node, (ast.Module, ast.ClassDef, ast.FunctionDef, ast.AsyncFunctionDef)):
+                b = node.body
+                if b and isinstance(b[0], ast.Expr) and isinstance(b[0].value, ast.Constant) and isinstance(b[0].value.value, str):
+                    doc.add(id(b[0].value))
+        for node in ast.walk(tree):
+            if isinstance(node, ast.Constant) and id(node) not in doc:
+                v = node.value
+                if isinstance(v, str) and 0 < len(v) <= 40 and v not in strs:
+                    strs.append(v)
+                elif isinstance(v, int) and not isinstance(v, bool) and v not in ints:
+                    ints.append(v)
+    var = []
+    for v in strs:
+        for w in (v, v.strip().rstrip(":").strip(), v.upper() if v.strip() == v and " " not in v else v):
+            if w and w not in var:
+                var.append(w)
+    _HARVEST = (sorted(var), sorted(set(ints + [-i for i in ints] + [i + 1 for i in ints] + [i - 1 for i in ints])))
+    return _HARVEST
+
+
+def all_methods(with_harvest=True):
     from chuk_mcp.protocol.messages.message_method import MessageMethod
 
     names = [m.value for m in MessageMethod]
     out = []
-    # the notification every real client sends comes first, so that it is the one reported
+    # the notifications every real client sends come first, so that they are the ones reported
     std_first = ["notifications/cancelled", "notifications/progress", "notifications/message"]
-    for n in std_first + sorted(k for k in H.CUSTOM if k.startswith("notifications/")) + H.BUILTIN + sorted(H.CUSTOM) + names + ODD_METHODS:
+    for n in (std_first + sorted(k for k in H.CUSTOM if k.startswith("notifications/")) + H.BUILTIN + sorted(H.CUSTOM)
+              + names + ODD_METHODS + (harvest()[0] if with_harvest else [])):
         if n not in out:
             out.append(n)
     return out
 
 
+def tool_names():
+    return sorted(H.TOOLS) + NAME_EXTRAS[:-1] + harvest()[0] + harvest()[1] + ["<absent>"]
+
+
+def uris():
+    return sorted(H.RESOURCES) + URI_EXTRAS[:-1] + harvest()[0][::3] + ["<absent>"]
+
+
 def directed(budget):
     out = []
+    quick = budget == "quick"
     meths = all_methods()
+    primary = set(all_methods(with_harvest=False))
+    hints = harvest()[1]
     for me in meths + ["<absent>"]:
-        for i in IDS:
+        if quick and me not in primary and me != "<absent>":
+            # harvested constants as method names: sampled in the quick tier
+            for i in ("<absent>", 0, ""):
+                out.append(mk(me, i, "<absent>"))
+                out.append(mk(me, i, {"name": me, "uri": me}))
+            continue
+        ids = IDS if (not quick or me in CORE_METHODS) else IDS_Q
+        for i in ids:
             for p in GENERIC_PARAMS:
                 out.append(mk(me, i, p))
             if me != "<absent>":
                 out.append(mk(me, i, "<absent>", "parse"))
                 out.append(mk(me, i, {}, "typed"))
-    ids = IDS_SHORT if budget == "quick" else IDS
+        if me != "<absent>":
+            out.append(mk(me, 1, {}, "list"))
+            out.append(mk(me, "<absent>", {}, "list"))
+    # ids harvested from the source (error codes, limits) and session-id arguments of every kind
+    for me in CORE_METHODS:
+        for i in hints + harvest()[0][::4]:
+            out.append(mk(me, i, "<absent>"))
+        for sid in SIDS[1:]:
+            for i in ("<absent>", 0, "s"):
+                out.append(mk(me, i, {}, sid=sid))
+    # the same table with built-in methods re-registered through register_method
+    for me in H.BUILTIN + sorted(H.OVERRIDES) + ["nosuch", "notifications/cancelled", "custom/answers"]:
+        for i in IDS_Q:
+            for p in GENERIC_PARAMS[:3] + [{"name": "echo"}, {"name": "nosuch"}]:
+                out.append(mk(me, i, p, server="overrides"))
+    # unusual but accepted envelopes: extra members, a request that also carries result / error, other jsonrpc tags
+    for me in CORE_METHODS:
+        for i in ("<absent>", 0, "e"):
+            for extra in ({"extra": 1, "": None}, {"result": {}}, {"result": None, "error": None}, {"error": {"code": 1, "message": "m"}},
+                          {"jsonrpc": "1.0"}, {"jsonrpc": ""}, {"params": {}, "method": me, "id": i} if i != "<absent>" else {"params": {}}):
+                c = mk(me, i, "<absent>")
+                c["msg"] = dict(c["msg"], **extra)
+                out.append(c)
+    # response-shaped messages (no method) of every id
+    for i in IDS_Q:
+        for body in ({"result": {}}, {"result": {"x": 0}}, {"error": {"code": -32601, "message": ""}}):
+            c = mk("<absent>", i, "<absent>")
+            c["msg"].update(body)
+            out.append(c)
+    ids = ["<absent>", 0, "", "r-1"] if quick else IDS
+    args = ARGUMENTS_Q if quick else ARGUMENTS
+    real = set(H.TOOLS)
     for i in ids:
-        for n in TOOL_NAMES:
-            for a in ARGUMENTS:
+        for n in tool_names():
+            full = isinstance(n, str) and n in real and not n.startswith("raise/")
+            if quick and not full and i not in ("<absent>", 0):
+                continue
+            for a in (args if (full or not quick) else ["<absent>", {"text": ""}, None]):
                 p = {}
                 if n != "<absent>":
                     p["name"] = n
                 if a != "<absent>":
                     p["arguments"] = a
                 out.append(mk("tools/call", i, p))
-        for u in URIS:
+        for u in uris():
             out.append(mk("resources/read", i, {} if u == "<absent>" else {"uri": u}))
             out.append(mk("resources/read", i, {"uri": u, "name": "echo"} if u != "<absent>" else {"name": "echo"}, "parse"))
         for p in INIT_PARAMS:
@@ -154,7 +265,7 @@ def directed(budget):
 def rand_json(rng, depth=0):
     r = rng.random()
     if depth > 2 or r < 0.5:
-        return rng.choice([None, True, False, 0, -1, 7, 2 ** 40, "", "x", "echo", "file:///ok", 1.5, "Ünï"])
+        return rng.choice([None, True, False, 0, -1, 7, 2 ** 40, "", "x", "echo", "file:///ok", 1.5, "Ünï", 0.0, "%s", "{}"])
     if r < 0.8:
         return {rng.choice(["name", "uri", "arguments", "text", "a", "", "_meta", "clientInfo"]): rand_json(rng, depth + 1)
                 for _ in range(rng.randint(0, 3))}
@@ -168,15 +279,15 @@ def seeded(rng, meths):
     elif r < 0.6:
         me = "<absent>"
     else:
-        alphabet = "abcpingtools/call_.-N é\n0"
+        alphabet = "abcpingtools/call_.-N é\n0%{}s"
         me = "".join(rng.choice(alphabet) for _ in range(rng.randint(0, 14)))
     r = rng.random()
     if r < 0.3:
         i = "<absent>"
     elif r < 0.65:
-        i = rng.choice([0, 1, -1, rng.randint(-10 ** 6, 10 ** 6), rng.getrandbits(70) - 2 ** 69])
+        i = rng.choice([0, 1, -1, 7, 7.0, 0.0, rng.randint(-10 ** 6, 10 ** 6), rng.getrandbits(70) - 2 ** 69])
     else:
-        i = rng.choice(["", "0", "id-%d" % rng.randint(0, 99), "".join(rng.choice("aé0 -") for _ in range(rng.randint(0, 8)))])
+        i = rng.choice(["", "0", "7", "id-%d" % rng.randint(0, 99), "".join(rng.choice("aé0 -%{}") for _ in range(rng.randint(0, 8)))])
     r = rng.random()
     if r < 0.2:
         p = "<absent>"
@@ -184,41 +295,96 @@ def seeded(rng, meths):
         p = None
     else:
         p = {}
+        names, us = tool_names(), uris()
         if rng.random() < 0.7:
-            p["name"] = rng.choice(TOOL_NAMES[:-1]) if rng.random() < 0.8 else rand_json(rng)
+            p["name"] = rng.choice(names[:-1]) if rng.random() < 0.8 else rand_json(rng)
         if rng.random() < 0.5:
             p["arguments"] = rng.choice(ARGUMENTS[1:]) if rng.random() < 0.7 else rand_json(rng)
         if rng.random() < 0.5:
-            p["uri"] = rng.choice(URIS[:-1]) if rng.random() < 0.8 else rand_json(rng)
+            p["uri"] = rng.choice(us[:-1]) if rng.random() < 0.8 else rand_json(rng)
         if rng.random() < 0.3:
-            p[rng.choice(["x", "_meta", "clientInfo", "protocolVersion"])] = rand_json(rng)
-    return mk(me, i, p, rng.choice(["legacy", "legacy", "parse", "typed"]))
+            p[rng.choice(["x", "_meta", "clientInfo", "protocolVersion", "requestId", "progressToken"])] = rand_json(rng)
+    kw = {}
+    if rng.random() < 0.15:
+        kw["server"] = "overrides"
+    if rng.random() < 0.2:
+        kw["sid"] = rng.choice(SIDS)
+    return mk(me, i, p, rng.choice(["legacy", "legacy", "legacy", "parse", "typed", "list"]), **kw)
+
+
+def sequences(rng, n):
+    """2-4 messages on ONE fresh server: the same envelope object twice, a request after a failed one, a second
+    initialize, an id reused with another JSON type, notifications between requests, the session id of the last initialize"""
+    init = {"protocolVersion": "2025-06-18", "clientInfo": {"name": "c"}, "capabilities": {}}
+    fixed = [
+        [("initialize", 0, init), ("initialize", 0, init), ("ping", 0, "<absent>")],
+        [("custom/raises", 1, {}), ("ping", 1, {}), ("custom/raises", "<absent>", {}), ("ping", "1", {})],
+        [("tools/call", 7, {"name": "raise/empty"}), ("tools/call", 7, {"name": "echo"}), ("tools/call", "7", {"name": "echo"})],
+        [("notifications/cancelled", "<absent>", {"requestId": 7}), ("ping", 7, "<absent>"), ("notifications/cancelled", "<absent>", {"requestId": 7})],
+        [("ping", 0, "<absent>"), ("ping", 0, "<absent>"), ("ping", "", "<absent>"), ("ping", "<absent>", "<absent>")],
+        [("notifications/initialized", "<absent>", "<absent>"), ("initialize", "i", init), ("notifications/initialized", "<absent>", "<absent>"), ("tools/list", 2, {})],
+        [("custom/none", 3, {}), ("custom/answers", 3, {}), ("nosuch", 3, {}), ("custom/answers", 3.0, {})],
+        [("resources/read", 1, {"uri": "file:///raise/unprintable"}), ("resources/read", 2, {"uri": "file:///ok"}), ("resources/list", 3, None)],
+    ]
+    out = []
+    for f in fixed:
+        for reuse in (False, True):
+            for sid in (None, "$last", ""):
+                out.append({"seq": [dict(mk(m, i, p), reuse=reuse, sid=sid) for m, i, p in f]})
+        out.append({"seq": [dict(mk(m, i, p), reuse=True) for m, i, p in f], "server": "overrides"})
+    meths = all_methods()
+    for _ in range(n):
+        k = rng.randint(2, 4)
+        seq = []
+        for _ in range(k):
+            c = seeded(rng, meths)
+            c.pop("server", None)
+            if seq and rng.random() < 0.35:
+                c = dict(rng.choice(seq))  # the same message again
+            c["reuse"] = rng.random() < 0.5
+            c["sid"] = rng.choice([None, "$last", "", "no-such-session"])
+            seq.append(c)
+        out.append({"seq": seq})
+    return out
 
 
 # ---- the property oracle (implementation observation only) --------------------------------------
 
 
-def _same_id(a, b):
-    return type(a) is type(b) and a == b
+def _same_id(got, sent):
+    """same JSON value with the same JSON type; 7.0 and 7 are the same JSON number (7 and "7", 0 and false are not)"""
+    if isinstance(sent, float) and sent == int(sent):
+        sent = int(sent)
+    if isinstance(got, float) and got == int(got):
+        got = int(got)
+    return type(got) is type(sent) and got == sent
 
 
 def expectation(case):
     """what the property text demands for this message: dict with
     notif: bool; and for requests  code: exact code | None,  kind: 'result'|'error'|None"""
     msg = case["msg"]
+    variant = case.get("server")
+    custom = H.custom_table(variant)
+    if case.get("env") == "list":
+        return {"class": "batch"}  # a list is C13's subject; here only "never raises"
+    if msg.get("jsonrpc") != "2.0":
+        return {"class": "not-jsonrpc-2.0"}
+    if "result" in msg or "error" in msg:
+        return {"class": "carries-response-members"}  # neither a well-formed request nor a notification
     if "id" not in msg:
         return {"class": "notification"}
     me = msg.get("method")
     if not isinstance(me, str):
         return {"class": "not-a-request"}
     params = msg.get("params")
-    reg = H.registered_methods()
+    reg = H.registered_methods(variant)
     if me == "":
         return {"class": "request", "kind": "error", "code": None, "why": "empty method name"}
     if me not in reg:
         return {"class": "request", "kind": "error", "code": -32601, "why": "unregistered method"}
-    if me in H.CUSTOM:
-        b = H.CUSTOM[me]
+    if me in custom:
+        b = custom[me]
         if b in H.UNFAITHFUL:
             return {"class": "request-to-unfaithful-custom-method"}
         if b in ("answers", "echoes"):
@@ -273,6 +439,8 @@ def check(case, o):
         return ("returns-non-pair", f"handle_message returned a {o.get('ret_type')} instead of (response, session id)",
                 {"response": "one, with the id" if has_id else None})
     r = o["resp"]
+    if e["class"] == "batch" and r is not None:
+        return ("batch-answered", f"a list message was answered with a single response: {r}", {"response": None})
     if e["class"] == "notification":
         if r is not None:
             return ("notification-answered", f"a notification was answered: {r}", {"response": None})
@@ -304,13 +472,15 @@ class Dispatch(Suite):
         out = directed(budget)
         rng = ctx.sub_rng("c08", budget)
         meths = all_methods()
-        n = 10000 if budget == "quick" else 60000
+        n = 6000 if budget == "quick" else 60000
         for _ in range(n):
             out.append(seeded(rng, meths))
         ctx.exhaustive_parts.append(
-            "dispatch: {7 built-in + 9 custom + every MessageMethod name + 17 odd method strings + no method} x 14 ids x "
-            "{4 params shapes, parse_message, typed envelope}; tools/call 24 names x 11 arguments, resources/read 16 uris, "
-            "initialize 10 params, each x %d ids" % (len(IDS_SHORT) if budget == "quick" else len(IDS)))
+            "dispatch: {%d method strings: built-in, %d custom, every MessageMethod name, odd/format-hostile strings, constants "
+            "harvested from the server modules, no method} x %d ids (quick: 9 for non-core methods) x {7 params shapes, parse_message, "
+            "typed envelope, list}; tools/call %d names x %d arguments; resources/read %d uris; initialize %d params; overrides server; "
+            "session-id arguments; unusual envelopes" % (len(meths), len(H.CUSTOM), len(IDS), len(tool_names()),
+                                                         len(ARGUMENTS_Q if budget == "quick" else ARGUMENTS), len(uris()), len(INIT_PARAMS)))
         return out
 
     def impl_batch(self, cases):
@@ -342,7 +512,8 @@ class Dispatch(Suite):
         if t is not None:
             e = dict(e, why=f"{t[0]} handler raises [{t[1]}]" + (" (not demanded)" if excluded(case) else ""))
         what = "raised" if o["raised"] else ("none" if r is None else ("result" if r.get("result") else "error%s" % r.get("code")))
-        return f"{e['class']}/{e.get('why', '-')}/{what}"
+        tag = ("+overrides" if case.get("server") else "") + ("+sid" if case.get("sid") is not None else "")
+        return f"{e['class']}/{e.get('why', '-')}/{what}{tag}"
 
     def nontrivial(self, case, o):
         return o["parse"] == "ok"
@@ -367,5 +538,43 @@ class Dispatch(Suite):
             yield {"msg": dict(msg, method=me[: len(me) // 2]), "env": env}
 
 
+class Sequences(Suite):
+    """several messages on one fresh server (reuse of envelopes, requests after failures, second initialize, id twins);
+    every step is judged by the single-message oracle — dispatch must not depend on what came before"""
+    name = "sequences"
+    uses_model = False
+
+    def cases(self, ctx, budget):
+        return sequences(ctx.sub_rng("c08seq", budget), 400 if budget == "quick" else 6000)
+
+    def impl_batch(self, cases):
+        return [H.run_case(c) for c in cases]
+
+    @staticmethod
+    def _step_case(case, st):
+        return {"msg": st["msg"], "env": st.get("env", "legacy"), "server": case.get("server"), "sid": st.get("sid")}
+
+    def oracle(self, case, o):
+        for n, (st, so) in enumerate(zip(case["seq"], o["steps"])):
+            v = check(self._step_case(case, st), so)
+            if v is not None:
+                return (v[0], f"message {n + 1} of {len(case['seq'])}: {v[1]}", v[2])
+        return None
+
+    def kind(self, case, o):
+        return "sequence/len%d%s%s" % (len(case["seq"]), "/reuse" if any(s.get("reuse") for s in case["seq"]) else "",
+                                       "/overrides" if case.get("server") else "")
+
+    def shrink_candidates(self, case):
+        seq = case["seq"]
+        for i in range(len(seq)):
+            if len(seq) > 1:
+                yield dict(case, seq=seq[:i] + seq[i + 1:])
+        for i, st in enumerate(seq):
+            for k in ("reuse", "sid"):
+                if st.get(k):
+                    yield dict(case, seq=seq[:i] + [{a: b for a, b in st.items() if a != k}] + seq[i + 1:])
+
+
 def suites():
-    return [Dispatch()]
+    return [Dispatch(), Sequences()]
